@@ -13,20 +13,21 @@ PCCLASS = {'alloc': 'acq_id', 'sendOpen': 'acq_t', 'sendWrte': 'acq_t', 'sendCls
 
 
 # ------------------------------------------------------------------ TLC side
-def host_cfg(prog, dev_k1, dev_f5, ridbase=10, invariants=(), view=True, emit=False, deadlock=True, properties=(), spec='Spec', constraints=(), registry=False):
+def host_cfg(prog, dev_k1, dev_f5, ridbase=10, invariants=(), view=True, emit=False, deadlock=True, properties=(), spec='Spec', constraints=(), registry=False, giveup=()):
     threads = sorted(prog)
     return tlc.cfg_text(constants={'Threads': '{' + ','.join('"%s"' % t for t in threads) + '}', 'Prog': '<- MC_Prog', 'Replies': '<- MC_Replies',
-                                   'DEV_K1': 'TRUE' if dev_k1 else 'FALSE', 'DEV_F5': 'TRUE' if dev_f5 else 'FALSE', 'REGISTRY': 'TRUE' if registry else 'FALSE', 'RidBase': str(ridbase)},
+                                   'DEV_K1': 'TRUE' if dev_k1 else 'FALSE', 'DEV_F5': 'TRUE' if dev_f5 else 'FALSE', 'REGISTRY': 'TRUE' if registry else 'FALSE', 'RidBase': str(ridbase),
+                                   'GIVEUP': '{' + ','.join('"%s"' % t for t in sorted(giveup)) + '}'},
                         spec=spec, invariants=list(invariants), properties=list(properties), view='View' if view else None,
                         action_constraints=['EmitEdge'] if emit else [], deadlock=deadlock, constraints=list(constraints))
 
 
 def host_run(prog, replies, dev_k1, dev_f5, invariants=('MonitorOK', 'Complete', 'NoCrossTalk', 'NoStuck', 'LockDiscipline'), emit=False, workers=16,
-             ridbase=10, cached=False, properties=(), spec='Spec', timeout=1800, deadlock=True, registry=False):
+             ridbase=10, cached=False, properties=(), spec='Spec', timeout=1800, deadlock=True, registry=False, giveup=()):
     """Model-check AdbHost for the given thread programs (prog/replies: dict thread -> list)."""
     import hashlib
     mod = tlc.mc_module('MCHost', 'AdbHost', dict(MC_Prog=prog, MC_Replies=replies))
-    cfg = host_cfg(prog, dev_k1, dev_f5, ridbase, invariants, emit=emit, properties=properties, spec=spec, deadlock=deadlock, registry=registry)
+    cfg = host_cfg(prog, dev_k1, dev_f5, ridbase, invariants, emit=emit, properties=properties, spec=spec, deadlock=deadlock, registry=registry, giveup=giveup)
     tag = hashlib.sha256((mod + cfg).encode()).hexdigest()[:12]
     d = os.path.join(tlc.WORK, 'mch-' + tag + ('-%d' % os.getpid()))
     os.makedirs(d, exist_ok=True)
